@@ -71,7 +71,7 @@ def generate(rng, tier, run):
     recipes = []
     # contexts first (one to three), more may come later
     for _ in range(rng.randint(1, 3)):
-        r = [rng.choice(['K0', 'K1', 'K1', 'K2', 'K2', 'KD', 'K3'])]
+        r = rng.choice([['K0'], ['K1'], ['K1'], ['K2'], ['K2'], ['KD'], ['K3'], ['KM', rng.randrange(3)], ['KT'], ['KG']])
         ops.append(['mkctx', r])
         recipes.append(r)
     # per-program document pool: the same documents come back at different points of the history
@@ -82,7 +82,7 @@ def generate(rng, tier, run):
         key = json.dumps(r)
         if key not in docs:
             kind = docgen.base_kind(r)
-            kind2 = 'K0' if kind in ('KD', 'K3') else kind
+            kind2 = 'K0' if kind in ('KD', 'K3', 'KM', 'KT', 'KG') else kind
             lst = []
             for _ in range(rng.randint(2, 5)):
                 if rng.random() < 0.3:
@@ -93,6 +93,16 @@ def generate(rng, tier, run):
             # make sure stateful kinds are present in K1/K2 pools
             if kind in ('K1', 'K2') and not any(any(m in d for m in STATEFUL_MARKS) for d in lst):
                 lst.append(rng.choice(['\\mv{a{b}c} tail', 'x \\mw{p{q}r}', '\\mz*[a[b]c]', '\\mvv{a}{b{c}}']))
+            if rng.random() < 0.25:
+                # deeply (but legitimately) nested documents: anything that counts nesting sees them
+                d = rng.choice([30, 45, 60, 90])
+                o, c = rng.choice([('{', '}'), ('{', '}'), ('\\mb{', '}'), ('$\\textbf{', '}$'), ('\\emph{', '}')])
+                if d > 45 and o != '{':
+                    d = 30
+                lst.append(o * d + 'a' + c * d)
+            if kind in ('K1', 'K2') and rng.random() < 0.4:
+                # a legacy arguments parser that reports a new parsing state for some invocations only
+                lst += ['\\lgs{def} % c\nx', rng.choice(['\\lgs{x} % d\ny', 'a \\lgs{y} % e\n'])]
             docs[key] = lst
         return docs[key]
 
@@ -103,10 +113,14 @@ def generate(rng, tier, run):
         doc = rng.choice(pool)
         tolerant = rng.random() < 0.35
         if x < 0.04 and len(recipes) < MAX_CTX:
-            r = [rng.choice(['K0', 'K1', 'K2', 'KD', 'K3'])]
+            r = rng.choice([['K0'], ['K1'], ['K2'], ['KD'], ['K3'], ['KM', rng.randrange(3)], ['KT'], ['KG']])
             ops.append(['mkctx', r])
             recipes.append(r)
-        elif x < 0.10 and len(recipes) < MAX_CTX and recipes[ci][0] != 'KD':
+        elif x < 0.10 and recipes[ci][0] == 'KM':
+            v = rng.randrange(3)
+            ops.append(['km_set', ci, v])
+            recipes[ci] = ['KM', v]
+        elif x < 0.10 and len(recipes) < MAX_CTX and recipes[ci][0] not in ('KD', 'KT', 'KM', 'KG'):
             r = docgen.gen_derivation(rng, recipes[ci])
             ops.append(['derive_ctx', ci, [r[0], r[2]]])
             recipes.append(r)
@@ -142,8 +156,14 @@ def generate(rng, tier, run):
             if kind == 'strict_error':
                 ops.append(['abort', ci, docgen.faulty_variant(rng, doc), 'strict_error', 0])
             elif kind == 'callback':
-                i = rng.randrange(len(doc) + 1)
-                ops.append(['abort', ci, doc[:i] + '\\boom{x}' + doc[i:], 'callback', 0])
+                if rng.random() < 0.4:
+                    # the callback fails deep inside nested structure
+                    d = rng.choice([10, 25, 40])
+                    o, c = rng.choice([('{', '}'), ('\\mb{', '}'), ('\\mx*[', ']{z}')])
+                    ops.append(['abort', ci, o * d + '\\boom{x}' + c * d, 'callback', 0])
+                else:
+                    i = rng.randrange(len(doc) + 1)
+                    ops.append(['abort', ci, doc[:i] + '\\boom{x}' + doc[i:], 'callback', 0])
             elif kind == 'recursion':
                 n = rng.choice([400, 1500, 5000])
                 o, c = rng.choice([('{', '}'), ('\\mb{', '}'), ('\\mv{', '}'), ('$\\mb{', '}$')])
@@ -152,6 +172,9 @@ def generate(rng, tier, run):
                 st = [d for d in pool if any(m in d for m in STATEFUL_MARKS)]
                 if st and rng.random() < 0.6:
                     doc = rng.choice(st)
+                if rng.random() < 0.25:
+                    d = rng.choice([20, 40, 60])
+                    doc = '{' * d + 'a \\mb{b}' + '}' * d
                 ops.append(['abort', ci, doc, 'interrupt', rng.randint(1, 70 * len(doc) + 60)])
         elif x < 0.66:
             ops.append(['parse', ci, docgen.token_soup(rng), tolerant, ['general']])
@@ -168,6 +191,13 @@ def generate(rng, tier, run):
 def _walker(ctx, recipe_kind, doc, tolerant):
     if recipe_kind == 'KD':
         return simparse.make_walker(doc, tolerant_parsing=tolerant)
+    if recipe_kind in ('KM', 'KG'):
+        # pylatexenc-1 style: a long-lived macro dictionary given to every walker
+        return simparse.make_walker(doc, macro_dict=ctx, tolerant_parsing=tolerant)
+    if recipe_kind == 'KT':
+        # ... or a temporary dictionary built inline for this one walker
+        return simparse.make_walker(doc, macro_dict=docgen.macro_dict_variant(len(doc)),
+                                    tolerant_parsing=tolerant)
     return simparse.make_walker(doc, latex_context=ctx, tolerant_parsing=tolerant)
 
 
@@ -268,6 +298,9 @@ def context_snapshot(ctx):
     """Public-API snapshot of a context database (identities included: same process)."""
     if ctx is None:
         return None
+    if not hasattr(ctx, 'categories'):
+        # legacy macro dictionary: parsing must not change it either
+        return {'macro_dict': sorted((k, id(v)) for k, v in ctx.items())}
     snap = {'categories': list(ctx.categories()), 'specs': {}, 'unknown': []}
     iters = {'macros': ctx.iter_macro_specs, 'environments': ctx.iter_environment_specs,
              'specials': ctx.iter_specials_specs}
@@ -331,9 +364,19 @@ def execute(program):
         kind = op[0]
         if kind == 'mkctx':
             if len(ctxs) < MAX_CTX:
-                ctxs.append([docgen.build_context(op[1]) if op[1][0] != 'KD' else None, op[1]])
+                ctxs.append([docgen.build_context(op[1]), list(op[1])])
                 stats.inc('op:mkctx-' + op[1][0])
             trace.append({'op': 'mkctx'})
+            continue
+        if kind == 'km_set':
+            # the application replaces entries of its long-lived macro dictionary in place
+            if ctxs:
+                c = ctxs[op[1] % len(ctxs)]
+                if c[1][0] == 'KM':
+                    c[0].update(docgen.macro_dict_variant(op[2]))
+                    c[1] = ['KM', op[2]]
+                    stats.inc('op:km_set')
+            trace.append({'op': 'km_set'})
             continue
         if not ctxs:
             trace.append({'op': kind, 'skipped': True})
@@ -357,7 +400,7 @@ def execute(program):
         ctx, recipe = ctxs[ci]
         rkind = docgen.base_kind(recipe)
         if kind == 'derive_ctx':
-            if len(ctxs) >= MAX_CTX or ctx is None:
+            if len(ctxs) >= MAX_CTX or ctx is None or not hasattr(ctx, 'categories'):
                 trace.append({'op': kind, 'skipped': True})
                 continue
             new_recipe = [op[2][0], recipe, op[2][1]]
@@ -373,7 +416,7 @@ def execute(program):
             trace.append({'op': kind, 'ctx_changed': [i for i in range(len(before)) if before[i] != after[i]]})
             continue
         before = [context_snapshot(c) for c, _ in ctxs]
-        rec = {'op': kind, 'ctx': ci, 'recipe': recipe}
+        rec = {'op': kind, 'ctx': ci, 'recipe': list(recipe)}
         if kind in ('parse', 'parse_nested'):
             rec['request'] = [op[0], 0] + list(op[2:])
             rec['result'] = do_op(ctx, rkind, op, clock)
@@ -452,7 +495,7 @@ def reference_single(recipe, request):
     """Runs in a process that has never parsed anything: build the context from
     its recipe, execute that single operation."""
     kind = docgen.base_kind(recipe)
-    ctx = None if kind == 'KD' else docgen.build_context(recipe)
+    ctx = docgen.build_context(recipe)
     return do_op(ctx, kind, request)
 
 
@@ -553,7 +596,7 @@ def run_program(program, env):
                 wanted.append((rec['recipe'], ['parse', 0, op[3], op[4], ['general']]))
     _prefetch(env, wanted, stats)
     for i, rec in enumerate(trace):
-        if rec.get('skipped') or rec['op'] in ('mkctx', 'noise'):
+        if rec.get('skipped') or rec['op'] in ('mkctx', 'noise', 'km_set'):
             continue
         op = program['ops'][i]
         if rec.get('ctx_changed') and violation is None:
